@@ -286,6 +286,8 @@ class Ctx:
             if ident not in [h['id'] for h in self.known_hits]:
                 self.known_hits.append({'id': ident, 'what': k.get('what', what)})
             return
+        if ident in [v['id'] for v in self.violations]:
+            return
         if len(self.violations) < 20:
             self.violations.append({'id': ident, 'what': what, 'replay': replay})
 
@@ -300,6 +302,11 @@ class Ctx:
         for h in self.known_hits:
             lines.append('KNOWN-FINDING: property=%s %s' % (self.prop, h['what']))
         os.makedirs(os.path.join(VERIF, 'replays'), exist_ok=True)
+        dpath = os.path.join(VERIF, 'replays', '%s-%d-disagreements.json' % (self.prop, self.seed))
+        if os.path.exists(dpath):
+            os.remove(dpath)
+        if self.disagreements:
+            json.dump(self.disagreements[:200], open(os.path.join(VERIF, 'replays', '%s-%d-disagreements.json' % (self.prop, self.seed)), 'w'), indent=1, default=str)
         if self.violations:
             rc = 1
             for i, v in enumerate(self.violations[:5]):
